@@ -103,7 +103,7 @@ def gen_tree(rng, depth=0, name=b"top"):
     """('D', name, [children]) / ('F', name); names unique per directory"""
     kids = []
     used = set()
-    nk = rng.randint(0 if depth else 1, 5 if depth < 2 else 3)
+    nk = rng.randint(1 if depth else 3, 6 if depth < 2 else 3)
     for _ in range(nk):
         if depth < 3 and rng.random() < 0.4:
             n = rng.choice(NAMES_D)
@@ -164,6 +164,8 @@ def gen_pattern_for(rng, paths):
     """an -i / --file-filter pattern aimed at the given tree paths"""
     p, isdir = rng.choice(paths)
     comps = p.split(b"/")
+    if len(comps) > 1 and rng.random() < 0.85:
+        comps = comps[1:]       # mostly aim below the top directory
     r = rng.random()
     if r < 0.2:
         pat = rng.choice(comps)
@@ -174,7 +176,7 @@ def gen_pattern_for(rng, paths):
     elif r < 0.55:
         pat = b"./" + p
     elif r < 0.7:
-        pat = rng.choice([b"*.c", b"*.cpp", b"a*", b"s*", b"**/sub", b"*/a.c", b"?.c", b"**.c", b"top/*/*.c", b"top/**", b"s?b", b"*b/*"])
+        pat = rng.choice([b"*.c", b"*.cpp", b"a*", b"s*", b"**/sub", b"*/a.c", b"?.c", b"**.c", b"top/*/*.c", b"top/*/**", b"s?b", b"*b/*", b"*.c++", b"**/a.c", b"lib/**"])
     elif r < 0.8:
         c = rng.choice(comps)
         k = rng.randint(0, len(c))
